@@ -1,0 +1,5 @@
+//! Verification hook ops for module `ansi` (see mod.rs for the protocol).
+
+pub fn handle(op: &str, _args: &[&str]) -> Result<String, String> {
+    Err(format!("unknown op: ansi.{op}"))
+}
